@@ -20,8 +20,7 @@
   keys, tag values with tombstone flags and series-id sets, the file's series / tombstone
   id sets); the on-disk block format of index files (tag blocks, measurement blocks, hash
   indexes, bloom filters, sketches) is NOT modelled: an index file is the content the
-  compaction computes. The tag-value series-id cache of `Index` is not modelled (it only
-  ever holds supersets that the series-file filter removes in the flows generated).
+  compaction computes. The tag-value series-id cache of `Index` is modelled (`State.cache`).
 
   Core Lean only.
 -/
@@ -363,6 +362,34 @@ def compactLevelFiles (files : List File) (level : Nat) : List File :=
       | _, _ => files
   | _ => files
 
+/-- one step of what `Partition.compact` schedules: the newest non-active log file is
+    compacted; if there is none, the lowest level with two selectable files is merged. -/
+def compactNewestLog : List File → Option (List File)
+  | [] => none
+  | active :: rest =>
+    let rec go : List File → Option (List File)
+      | [] => none
+      | f :: fs =>
+        if f.isLog then some ({ isLog := false, level := 1, data := compactLogData f.data } :: fs)
+        else (go fs).map (f :: ·)
+    (go rest).map (active :: ·)
+
+def settleStep (files : List File) : Option (List File) :=
+  match compactNewestLog files with
+  | some fs => some fs
+  | none =>
+    ([1, 2, 3, 4, 5, 6].find? (fun l => (lastContiguous files l).length ≥ 2)).map
+      (fun l => compactLevelFiles files l)
+
+/-- the partition's background compaction run to its fixpoint (what happens after `Open`,
+    before the harness switches compactions off). -/
+def settle : Nat → List File → List File
+  | 0, files => files
+  | fuel + 1, files =>
+    match settleStep files with
+    | some fs => settle fuel fs
+    | none => files
+
 /-- `Partition.buildSeriesSet`: oldest file first, `Diff(tombstones)` then `Merge(series)`. -/
 def buildSeriesSet (fs : List FileData) : List Nat :=
   fs.reverse.foldl (fun acc f => sunion (sdiff acc f.tomb) f.sset) []
@@ -375,6 +402,10 @@ structure State where
   /-- the harness's bookkeeping of "created and not dropped" (drives `dropMeasurement`) -/
   tracked : List Nat := []
   configured : Bool := false
+  /-- `Index.tagValueCache`: (name, key, value) ↦ the series-id set computed by the first
+      `TagValueSeriesIDIterator` call; creations add to it, nothing ever removes from it;
+      lost on close. (Capacity 100, never reached by the 8 tuples of the generated cases.) -/
+  cache : List ((String × String × String) × List Nat) := []
 deriving Repr
 
 def modifyAt (l : List α) (i : Nat) (f : α → α) : List α :=
@@ -410,7 +441,18 @@ def dropMeasurementIfNoSeries (st : State) (name : String) : State :=
 
 def Partition.reopen (sf : SFile) (p : Partition) : Partition :=
   let files := p.files.map (fun f => if f.isLog then { f with data := replay sf f.entries } else f)
-  { p with files := files, sset := buildSeriesSet (files.map (·.data)) }
+  { p with files := settle (8 * files.length + 8) files, sset := buildSeriesSet (files.map (·.data)) }
+
+def cacheGet (c : List ((String × String × String) × List Nat)) (k : String × String × String) :
+    Option (List Nat) :=
+  (c.find? (fun e => e.1 = k)).map (·.2)
+
+/-- `Index.CreateSeriesListIfNotExists`, cache part: if the measurement has cached sets, the new
+    id is added to the cached set of each of its tag pairs that has one (`addToSet`). -/
+def cacheAdd (c : List ((String × String × String) × List Nat)) (name : String) (tags : Tags) (id : Nat) :
+    List ((String × String × String) × List Nat) :=
+  c.map (fun e =>
+    if e.1.1 = name ∧ tags.any (fun kv => kv.1 = e.1.2.1 ∧ kv.2 = e.1.2.2) then (e.1, sadd e.2 id) else e)
 
 def tagsOK (tags : Tags) : Bool :=
   tags.all (fun kv => kv.1 ≠ "" ∧ kv.2 ≠ "") &&
@@ -430,12 +472,14 @@ def step (st : State) : Op → State × Obs
     let sf := if (st.sf.find id).isSome then st.sf
       else { st.sf with known := st.sf.known ++ [{ id := id, name := name, tags := tags, part := part }] }
     let parts := markOpStart st.parts
+    let isNew := !((st.parts[part]?.map (·.sset.contains id)).getD true)
     let parts := modifyAt parts part (fun p =>
       if p.sset.contains id then p
       else
         let p' := p.append sf [Entry.add id]
         { p' with sset := sadd p'.sset id })
-    ({ st with parts := parts, sf := sf, tracked := sadd st.tracked id, configured := true }, .ok)
+    ({ st with parts := parts, sf := sf, tracked := sadd st.tracked id, configured := true,
+               cache := if isNew then cacheAdd st.cache name tags id else st.cache }, .ok)
   | .dropSeries id =>
     match st.sf.find id with
     | none => (st, .rejected)
@@ -474,14 +518,14 @@ def step (st : State) : Op → State × Obs
     if p ≥ st.parts.length then (st, .rejected) else
     ({ st with parts := modifyAt st.parts p (fun q => { q with files := compactLevelFiles q.files level }),
                configured := true }, .ok)
-  | .reopen => ({ st with parts := st.parts.map (·.reopen st.sf), configured := true }, .ok)
+  | .reopen => ({ st with parts := st.parts.map (·.reopen st.sf), configured := true, cache := [] }, .ok)
   | .crash p k _ =>
     if p ≥ st.parts.length then (st, .rejected) else
     let parts := modifyAt st.parts p (fun q =>
       match q.files with
       | [] => q
       | active :: rest => { q with files := { active with entries := active.entries.take (q.opStart + k) } :: rest })
-    ({ st with parts := parts.map (·.reopen st.sf), configured := true }, .ok)
+    ({ st with parts := parts.map (·.reopen st.sf), configured := true, cache := [] }, .ok)
   | .measurements =>
     (st, .names (sortStr (st.parts.flatMap (fun p => fsMeasurements p.datas))))
   | .tagKeys name =>
@@ -495,8 +539,13 @@ def step (st : State) : Op → State × Obs
     (st, .ids (sortNat ((st.parts.flatMap (fun p => fsKeySeries p.datas name key)).filter
       (fun id => !st.sf.isDeleted id))))
   | .tagValueSeries name key value =>
-    (st, .ids (sortNat ((st.parts.flatMap (fun p => fsValSeries p.datas name key value)).filter
-      (fun id => !st.sf.isDeleted id))))
+    -- Index.TagValueSeriesIDIterator: the cached set if there is one, else computed and cached
+    let raw := match cacheGet st.cache (name, key, value) with
+      | some ids => ids
+      | none => sortNat (st.parts.flatMap (fun p => fsValSeries p.datas name key value))
+    let st' := if (cacheGet st.cache (name, key, value)).isSome then st
+      else { st with cache := ((name, key, value), raw) :: st.cache }
+    (st', .ids (sortNat (raw.filter (fun id => !st.sf.isDeleted id))))
 
 def run : State → List Op → List (Op × Obs)
   | _, [] => []
